@@ -154,5 +154,22 @@ def computePropensitiesSafe (m : Mode) (nSpecies : Nat) (U D : List (List Int)) 
     | .stoch => safeStochOne .stoch inputs x p V t rq.2
     | .svol => safeStochOne .svol inputs x p V t rq.2)
 
+/-- one species' row of `SafeModelCSimInterface.calculate_deterministic_derivative`: as `derivRow`, but a reaction that
+consumes the species (`S_values[s][j] <= 0`) is left out while the species is at (or below) zero. -/
+def derivRowSafe (U D : List (List Int)) (rates : List α) (xs : α) (s : Nat) : α :=
+  (List.range rates.length).foldl (fun acc r =>
+    let v := entry U s r + entry D s r
+    if v ≠ 0 then (if v ≤ 0 ∧ xs ≤ 0 then acc else acc + rates.getD r 0 * (v : α)) else acc) 0
+
+/-- `SafeModelCSimInterface.calculate_deterministic_derivative`: negative entries of the state are reset to zero, the
+(safe, deterministic) propensities are computed, each species' row is summed with the guard, and a species at zero whose
+sum is still negative raises (`none`). -/
+def derivativeSafe (nSpecies : Nat) (U D : List (List Int)) (R : List (List Nat)) (props : List (Propensity α))
+    (x p : Nat → α) (t : α) : Option (List α) :=
+  let x' : Nat → α := fun s => if x s < 0 then 0 else x s
+  let rates := computePropensitiesSafe .det nSpecies U D R props x' p 1 t
+  let rows := (List.range nSpecies).map (fun s => derivRowSafe U D rates (x' s) s)
+  if (List.range nSpecies).any (fun s => x' s ≤ 0 ∧ rows.getD s 0 < 0) then none else some rows
+
 end
 end Bioscrape
